@@ -7,7 +7,7 @@ for d in "$@"; do
   d="${d%/}"
   name="$(basename "$d")"
   prop="${name%-*}"
-  out="$(SKIP_SUITE=1 tools/mutant.sh "$d/patch.diff" 2>&1)"
+  out="$(tools/matrix.sh "$d/patch.diff" 2>&1)"
   caught="$(printf '%s\n' "$out" | grep '^caught-by:' | sed 's/^caught-by: //')"
   printf '%s\n' "$out" > "out/seed-$name.log"
   python3 - "$d" "$prop" "$caught" "$out" <<'PY'
@@ -23,7 +23,8 @@ meta={
  "written_by": "independent sub-agent given only the property record and a scratch worktree",
  "needs_to_manifest": notes.strip(),
  "confirmed": "tools/seed_verify.sh in the agent's worktree: patch applies, repository suite passes with it (94 tests), demo.rs fails with it and passes without it",
- "checks_run": "tools/mutant.sh (patch applied to /repo, every property's quick check, /repo restored)",
+ "suite_with_change": next((l for l in out.splitlines() if l.startswith("suite:")), ""),
+ "checks_run": "tools/matrix.sh: patch applied to a scratch copy of /repo, the repository suite run there, every property quick check run against the copy (VERIF_REPO), copy removed",
  "caught_by": caught.split() if caught and caught!="none" else [],
  "caught_by_own_property": prop in caught.split(),
  "per_check": rows,
